@@ -1,4 +1,73 @@
-import GoSup.Model.Planner
-/-! # C11 — property theorems -/
+import Batteries.Data.List.Perm
+import GoSup.Model.Member
+import GoSup.Model.CompSeq
+import GoSup.Spec.C11
+/-!
+# C11 — property theorems (composite reload: membership decision, in place vs restart)
+-/
 namespace GoSup.Props.C11
+open GoSup.Member GoSup.Spec.C11
+
+/-- the decision as a proposition -/
+theorem changed_false_iff (old new : List String) :
+    changed old new = false ↔ old.length = new.length ∧ ∀ x ∈ new, x ∈ old := by
+  simp [changed]
+
+/-- **Membership decision, duplicate-free configurations.** For configurations that name every
+runnable identity once (lists of any length), `hasMembershipChanged` is false exactly when the two
+identity sets are equal — in particular a permutation counts as unchanged. -/
+theorem member_spec_nodup (old new : List String) (ho : old.Nodup) (hn : new.Nodup) :
+    changed old new = false ↔ (∀ x, x ∈ old ↔ x ∈ new) := by
+  rw [changed_false_iff]
+  constructor
+  · rintro ⟨hlen, hsub⟩
+    have hsp : new.Subperm old := List.subperm_of_subset hn (fun x hx => hsub x hx)
+    have hp : new.Perm old := hsp.perm_of_length_le (by omega)
+    intro x; exact (hp.mem_iff).symm
+  · intro h
+    have hsp1 : new.Subperm old := List.subperm_of_subset hn (fun x hx => (h x).mpr hx)
+    have hsp2 : old.Subperm new := List.subperm_of_subset ho (fun x hx => (h x).mp hx)
+    exact ⟨Nat.le_antisymm hsp2.length_le hsp1.length_le, fun x hx => (h x).mpr hx⟩
+
+/-- the executable statement used as oracle agrees with the decision on duplicate-free lists -/
+theorem holdsMember_model (old new : List String) (ho : old.Nodup) (hn : new.Nodup) :
+    holdsMember old new (changed old new) = true := by
+  have key : sameSet old new = true ↔ (∀ x, x ∈ old ↔ x ∈ new) := by
+    simp only [sameSet, Bool.and_eq_true, List.all_eq_true, List.contains_iff_mem]
+    exact ⟨fun h x => ⟨h.1 x, h.2 x⟩, fun h => ⟨fun x hx => (h x).mp hx, fun x hx => (h x).mpr hx⟩⟩
+  simp only [holdsMember, beq_iff_eq]
+  cases hc : changed old new with
+  | false =>
+    have := key.mpr ((member_spec_nodup old new ho hn).mp hc)
+    simp [this]
+  | true =>
+    cases hs : sameSet old new with
+    | false => rfl
+    | true =>
+      have : changed old new = false := (member_spec_nodup old new ho hn).mpr (key.mp hs)
+      simp [this] at hc
+
+/-- **The full statement is false** (finding C11-F1): with a repeated identity a changed set is
+reported as unchanged, and an unchanged set as changed. -/
+theorem member_spec_fails_with_duplicates :
+    (changed ["a", "b"] ["a", "a"] = false ∧ sameSet ["a", "b"] ["a", "a"] = false)
+    ∧ (changed ["a", "a"] ["a"] = true ∧ sameSet ["a", "a"] ["a"] = true) := by
+  decide
+
+open GoSup.CompSeq in
+/-- **Reload, operation level.** On a Running composite whose `Run` has not returned: a callback
+error or nil configuration leaves configuration and children untouched and gives `Error`; an
+unchanged membership replaces the configuration and touches no child; a changed membership makes
+exactly the new set run. -/
+theorem c11_reload (s : St) (hr : s.ret = .none) (hf : s.fsm = .running) :
+    (step s (.reload .err)).fsm = .error ∧ (step s (.reload .err)).cfg = s.cfg ∧ (step s (.reload .err)).running = s.running
+    ∧ (step s (.reload .nil)).fsm = .error ∧ (step s (.reload .nil)).cfg = s.cfg ∧ (step s (.reload .nil)).running = s.running
+    ∧ ∀ es, (step s (.reload (.ok es))).cfg = es ∧ (step s (.reload (.ok es))).fsm = .running
+        ∧ (step s (.reload (.ok es))).running =
+            if GoSup.CompSeq.changed (names s.cfg) (names es) then sortNat (names es) else s.running := by
+  simp only [step, hr, hf]
+  refine ⟨by simp, by simp, by simp, by simp, by simp, by simp, ?_⟩
+  intro es
+  by_cases hc : GoSup.CompSeq.changed (names s.cfg) (names es) = true <;> simp [hc]
+
 end GoSup.Props.C11
